@@ -204,7 +204,9 @@ def drv_to_poly(case):
     pts = _evals(m, box, tok, puan)
     out = []
     for active in (True, False):
-        p = m.to_ge_polyhedron(active=active)
+        # (the un-asserted system is what the call gives by default; asserted also positionally)
+        if active: p = m.to_ge_polyhedron(True) if len(pts) % 2 else m.to_ge_polyhedron(active=True)
+        else: p = m.to_ge_polyhedron() if len(pm.get("kids", ())) % 2 else m.to_ge_polyhedron(active=False)
         rows, cols = proj.polyhedron(p, tok)
         out.append({"op": "to_poly", "model": pm, "active": active, "rows": rows, "cols": cols, "points": pts,
                     "after": proj.node(m, tok), "wide": wide})
@@ -720,7 +722,9 @@ def _poly(case):
         if f == 5 and (lo, hi) == (0, 1): return puan.variable(i, (0, 1), dtype="bool")
         if f == 5: return puan.variable(i, (lo, hi), dtype=puan.Dtype.INT)
         return puan.variable(i, (lo, hi))
-    vs = [puan.variable.support_vector_variable()] + [mkv(j, i, b) for j, (i, b) in enumerate(zip(ids, case["bounds"]))]
+    # (the variable that labels the first column - the constants - is usually the support vector variable; any variable will do there)
+    v0 = puan.variable.support_vector_variable() if kk % 7 != 3 else (puan.variable("0") if kk % 2 else puan.variable(0, (0, 1)))
+    vs = [v0] + [mkv(j, i, b) for j, (i, b) in enumerate(zip(ids, case["bounds"]))]
     idx = case.get("index")
     arr = numpy.array(case["rows"], dtype={"int8": numpy.int8, "int16": numpy.int16, "int32": numpy.int32}.get(case.get("dtype"), numpy.int64)).reshape(len(case["rows"]), len(vs))
     kw = {"index": [puan.variable(i, (0, 1)) for i in idx]} if idx else {}
@@ -907,7 +911,7 @@ def drv_poly_history(case):
             elif call in ("sat", "sep", "rowsep"):
                 lo = [int(v.bounds.lower) for v in cols]; hi = [int(v.bounds.upper) for v in cols]
                 mid = [l if j % 2 else h for j, (l, h) in enumerate(zip(lo, hi))]
-                pts = [lo, [[lo, hi], [mid, lo]], [[[lo, hi], [hi, mid]], [[mid, mid], [hi, lo]]], hi][(k + len(steps)) % 4]
+                pts = [lo, [[lo, hi], [mid, lo]], [[[lo, hi], [hi, mid]], [[mid, mid], [hi, lo]]], hi, [mid], [[[lo]], [[hi]]], [[[hi]]]][(k + len(steps)) % 7]
                 arr = numpy.array(pts, dtype=numpy.int64)
                 fn = {"sat": P.ineqs_satisfied, "sep": P.separable, "rowsep": P.ineq_separate_points}[call]
                 r = numpy.asarray(fn(arr))
@@ -932,6 +936,10 @@ def drv_poly_history(case):
                 rr, cc = P.reducable_rows_and_columns()
                 st["rflags"] = [proj.I(x) for x in L(rr)]; st["fixed"], st["val"] = _cv(cc)
                 Q = P.reduce(rr, cc)
+            elif call == "assign_lo":
+                Q = P.reduce(columns_vector=numpy.array([int(v.bounds.lower) for v in cols], dtype=float))
+            elif call == "drop_none":
+                Q = P.reduce(rows_vector=numpy.zeros(P.shape[0], dtype=numpy.int64))
             elif call == "edit": P[0, -1] += 1
             elif call == "widen":
                 v = list(P.variables)[-1]
@@ -942,9 +950,9 @@ def drv_poly_history(case):
         except BaseException as ex:
             st["exc"] = type(ex).__name__; st["after"] = _pp(P, tok); steps.append(st); break
         st["after"] = _pp(P, tok)
-        if call in ("reduce_cols", "reduce_rows", "reduce_both", "reduce_cols_q", "reduce_rows_q", "reduce_both_q"):
+        if call in ("reduce_cols", "reduce_rows", "reduce_both", "reduce_cols_q", "reduce_rows_q", "reduce_both_q", "assign_lo", "drop_none"):
             st["new"] = _pp(Q, tok)
-            if not call.endswith("_q"): P = Q                           # the caller goes on with the returned polyhedron
+            if call in ("reduce_cols", "reduce_rows", "reduce_both"): P = Q                           # the caller goes on with the returned polyhedron
         steps.append(st)
     return [{"op": "poly_history", "init": {"rows": init["rows"], "cols": [{"id": tok(c["id"]), "lo": c["lo"], "hi": c["hi"]} for c in init["cols"]],
                                              "index": [tok(i) for i in init["index"]]}, "steps": steps}]
@@ -990,6 +998,13 @@ def drv_classify(case):
                 pass
     for k, pts in enumerate(case["points"]):
         classify(P, base, pts, k + case.get("k", 0))
+    if case.get("k", 0) % 2 == 0 and base["cols"] and case["points"]:
+        # groups that hold exactly one point: the shape still follows the input
+        flat1 = [p for p in case["points"] if p and not isinstance(p[0], list) and len(p) == len(base["cols"])]
+        if flat1:
+            classify(P, base, [flat1[0]], case.get("k", 0))
+            classify(P, base, [[flat1[0]], [flat1[-1]]], case.get("k", 0) + 1)
+            classify(P, base, [[flat1[-1]]], case.get("k", 0) + 2)
     if case.get("k", 0) % 4 == 0 and base["cols"]:
         # empty groups of points: nothing is separated, nothing is listed
         n = len(base["cols"])
@@ -1160,14 +1175,24 @@ METHODS = ["first", "last", "min", "max", "prio", "rank", "shadow"]
 def drv_compress(case):
     import numpy, puan.ndarray as pnd
     x, kind = case["x"], case["kind"]
-    base = numpy.array(x, dtype=numpy.int64)
+    # priorities handed over as a numpy array of a narrower integer type (an explicit one, or by rotation when the values fit)
+    flat_vals = numpy.asarray(x, dtype=object).flatten().tolist()
+    dts = [numpy.int64, numpy.int32, numpy.int64, numpy.int16, numpy.int64, numpy.int8]
+    dt = {"int8": numpy.int8, "int16": numpy.int16, "int32": numpy.int32}.get(case.get("dtype")) or dts[(len(json.dumps(x)) // 2) % 6]
+    if flat_vals and (min(flat_vals) < numpy.iinfo(dt).min or max(flat_vals) > numpy.iinfo(dt).max): dt = numpy.int64
+    base = numpy.array(x, dtype=dt)
     lay = case.get("layout", "C")             # the same logical array in another memory layout
     if lay == "T" and base.ndim == 2: base = numpy.ascontiguousarray(base.T).T
     if lay == "F" and base.ndim >= 2: base = numpy.asfortranarray(base)
     arr = pnd.integer_ndarray(base)
-    axis = {"2d0": 0, "2d1": 1, "flat": None, "3d0": 0}[kind]
+    axis = {"2d0": 0, "2d1": 1, "flat": None, "3d0": 0, "flat0": 0}[kind]
+    methods = METHODS
+    if kind == "flat0":
+        # a vector with the axis named explicitly: judged for the methods whose answer on the pinned tree is the documented compression
+        # of the vector (min / max reduce to a scalar there, prio ranks: see DESIGN 15.5, C13-14)
+        methods, kind = ["first", "last", "shadow"], "flat"
     big = bool(numpy.abs(numpy.asarray(x, dtype=object)).max() >= 2 ** 31) if numpy.asarray(x).size else False
-    rot = (len(json.dumps(x)) + len(kind)) % len(METHODS)          # the same array object serves all methods, in a rotating order
+    rot = (len(json.dumps(x)) + len(kind)) % len(methods)          # the same array object serves all methods, in a rotating order
     def one_event(x):
         runs = []
         xs = x
@@ -1185,7 +1210,7 @@ def drv_compress(case):
                 if isinstance(v, list): return [ren(i) for i in v]
                 v = int(v)
                 return 0 if v == 0 else (rank.get(abs(v), len(mags) + 7) * (1 if v > 0 else -1))
-        for m in METHODS[rot:] + METHODS[:rot]:
+        for m in methods[rot:] + methods[:rot]:
             if rot % 2:
                 r = pnd.ndint_compress(arr, method=m, axis=axis) if axis is not None else pnd.ndint_compress(arr, method=m)      # module level alias
             else:
